@@ -980,10 +980,19 @@ func c31TinyProgram(r *kit.Rand, v uint64) []byte {
 
 // ---- gadgets ------------------------------------------------------------------------------
 
+// opcodes implemented in C (libsodium, secp256k1, falcon): favoured in the ASan lane
+var c31CgoOps = []string{"ed25519verify", "ed25519verify_bare", "ecdsa_verify", "ecdsa_pk_decompress", "ecdsa_pk_recover", "vrf_verify", "falcon_verify"}
+var c31AsanLane = os.Getenv("VERIF_LANE") == "asan"
+
 // typedOps emits n random type-correct opcodes
 func (b *c31Builder) typedOps(n int) {
 	for i := 0; i < n && len(b.ops) > 0; i++ {
 		s := &b.ops[b.r.Intn(len(b.ops))]
+		if c31AsanLane && b.r.Chance(1, 3) {
+			if cs, ok := OpsByName[b.v][c31CgoOps[b.r.Intn(len(c31CgoOps))]]; ok && cs.Modes&b.mode != 0 {
+				s = &cs
+			}
+		}
 		if b.depth() > 900 || len(b.code) > 30000 {
 			return
 		}
